@@ -185,6 +185,11 @@ func (r *Report) Finish(verifDir string, onlyConstructs map[string]bool) int {
 			}
 		}
 	}
+	if os.Getenv("VERIF_DUMP") != "" {
+		for _, o := range r.Obls {
+			fmt.Fprintf(os.Stderr, "OBL %s | %s | %s | %s | %s\n", o.Status, o.Rule, o.Construct, o.Pos, o.Detail)
+		}
+	}
 	sort.SliceStable(bad, func(i, j int) bool {
 		if bad[i].Rule != bad[j].Rule {
 			return bad[i].Rule < bad[j].Rule
